@@ -14,6 +14,7 @@
 
 namespace jv {
 
+std::map<std::string, int64_t> g_cli_knobs;
 thread_local Stream* tl_stream = nullptr;
 thread_local HashStub* tl_hash = nullptr;
 
@@ -140,7 +141,8 @@ static RunResult run_fixed(const Plan& plan, Replicas& reps, const std::string& 
 static Plan plan_for(const Batch& b, size_t bidx, uint64_t seed, uint64_t idx) {
     Scenario* sc = find_scenario(b.scenario);
     uint64_t rs = mix3(seed, strhash(b.scenario.c_str()) + bidx * 1000003ULL, idx);
-    Plan p = sc->generate(rs, b.knobs);
+    std::map<std::string, int64_t> knobs = b.knobs; knobs["__idx"] = (int64_t) idx;
+    Plan p = sc->generate(rs, knobs);
     p.scenario = b.scenario;
     return p;
 }
@@ -473,8 +475,8 @@ int run_check(const std::string& prop, const std::string& tier, uint64_t seed, i
 int run_one(const std::string& scenario, uint64_t seed, const std::string& rep, int view, bool verbose) {
     Replicas reps; std::string err; if (!reps.load(replica_dir(), err)) { fprintf(stderr, "replica load failed: %s\n", err.c_str()); return 2; }
     Scenario* sc = find_scenario(scenario); if (!sc) { fprintf(stderr, "no scenario %s\n", scenario.c_str()); return 2; }
-    Plan plan = sc->generate(seed, {}); plan.scenario = scenario;
-    for (auto& op : plan.ops) printf("  op: %s\n", op.str().substr(0, 300).c_str());
+    Plan plan = sc->generate(seed, g_cli_knobs); plan.scenario = scenario;
+    for (auto& op : plan.ops) if (verbose) printf("  op: %s\n", op.str().substr(0, 300).c_str());
     RunResult r = execute_plan(plan, reps, rep, view, verbose, "", false);
     for (auto& l : r.log_lines) printf("  %s\n", l.c_str());
     for (auto& kv : r.counters) printf("  %s = %llu\n", kv.first.c_str(), (unsigned long long) kv.second);
